@@ -572,6 +572,14 @@ def run_tie(prop, spec, tier, seed):
     if st_n == 0 and not res.failures:
         res.failures.append(Failure("infra", "harness made no static-initialisation calls"))
 
+    # concurrent callers: get() is a function of its argument alone
+    par_out, _ = run_impl(binary, ["loc par %d" % (20000 if tier == "quick" else 200000)], max_aborts=1)
+    res.extra["concurrent_callers"] = par_out[0][:200]
+    if par_out[0] != "ok":
+        res.failures.append(Failure("violation", "LocaleInfo::get called from four threads at once (valid and unknown locales): %s" % par_out[0][:400],
+                                    signature="loc par", replay={"component": "locale", "ops": ["loc par 20000"], "got": par_out[0]}))
+    res.rule += "; + four concurrent callers compared with the single-threaded answers"
+
     # the multi-gigabyte strings: the answer is that of the same string with a 70-byte fill (no table key is longer than
     # 63 bytes and the fill byte is not a delimiter, so the two strings decompose alike)
     nbig = 0
@@ -629,6 +637,11 @@ def replay(prop, spec, path):
     orc = Oracle(lang, ctry)
     bad = False
     for l in ops:
+        if l.split()[1] == "par":
+            o, _ = run_impl(binary, [l], max_aborts=1)
+            print("four concurrent callers of LocaleInfo::get: %s" % o[0])
+            bad = bad or o[0] != "ok"
+            continue
         if l.split()[1] == "getbig":
             t = l.split()
             dec = lambda h: b"" if h == "-" else bytes.fromhex(h)
